@@ -138,7 +138,7 @@ def observe(shell, scr):
 def run(tier):
     v = Verdict(PROP, tier, "model_checking")
     build_harness()
-    n = 6000 if tier == "quick" else 24000
+    n = 6000 if tier == "quick" else 15000
     progs, states = model(14, (n + 13) // 14, (SEED - 1) * 7 % 1000)
     progs.sort(key=lambda p: p["k"])
 
